@@ -34,7 +34,7 @@ TInit ==
   /\ up = TRUE /\ stopping = FALSE /\ mem = FreshMem /\ run = [h \in Hs |-> NoRun]
   /\ pc = "idle" /\ cyc = NoCyc /\ now = Traces[tid].init.t
   /\ bud = [edits |-> 0, toggles |-> 0, deletes |-> 0, force |-> 0, stops |-> 0, kills |-> 0]
-  /\ gh = [early |-> FALSE, respawned |-> FALSE, killer |-> FALSE, exitwhen |-> 0, rematch |-> {}, double |-> FALSE, delat |-> 0, stopat |-> 0, closed |-> FALSE]
+  /\ gh = [early |-> FALSE, respawned |-> FALSE, killer |-> FALSE, exitwhen |-> 0, rematch |-> {}, double |-> FALSE, delat |-> 0, stopat |-> 0, closed |-> FALSE, racy |-> {}]
 
 Ev(e) == l <= Len(T) /\ E.ev = e /\ E.t = now /\ l' = l + 1 /\ UNCHANGED tid
 Keep == UNCHANGED <<tid, l>>
